@@ -202,3 +202,74 @@ class Wide:
 
 def wide(r):
     return Wide(r).program()
+
+
+# ------------------------------------------------------------------------------------------------
+def comptime(r):
+    """Programs whose compile-time VALUES reach the compiler's tables (monomorphization keys,
+    result tags, panic messages, names): `str/int/float/bool/nat @comptime` arguments forwarded
+    through user helpers (several distinct strings, some differing in one character), const
+    generics, structs and functions with nearly identical names, many definitions.  Accepted
+    programs, compared by bytes and FuncDefn names across hash seeds."""
+    tags = set()
+    words = ["alpha", "beta", "alphb", "a", "b", "", "tag", "tag_", "Tag", "x" * r.randrange(1, 40),
+             "q0", "q1", "res.0", "res.1", "µ", "long tag with spaces"]
+    parts = ["from guppylang import guppy\nfrom guppylang.std.builtins import comptime, result, nat, array, panic\n\n",
+             "T = guppy.type_var(\"T\")\nn = guppy.nat_var(\"n\")\n\n"]
+    calls = []
+    nh = r.choice([2, 3, 5, 8])
+    kinds = ["str", "int", "float", "bool", "nat", "str2", "fwd"]
+    base = r.choice(["rep", "report", "f", "helper_"])
+    names = []
+    for i in range(nh):
+        k = r.choice(kinds) if i else "str"
+        name = base + r.choice(["", "_", "0", "1", "x"]) + str(i)
+        names.append((name, k))
+        tags.add(k)
+        if k == "str":
+            parts.append(f"@guppy\ndef {name}(x: int, label: str @comptime) -> None:\n    result(label, x)\n\n")
+        elif k == "str2":
+            parts.append(f"@guppy\ndef {name}(x: int, l1: str @comptime, l2: str @comptime) -> None:\n"
+                         f"    result(l1, x)\n    result(l2, x + 1)\n\n")
+        elif k == "fwd":
+            tgt = names[0][0]
+            parts.append(f"@guppy\ndef {name}(x: int, label: str @comptime, k: int @comptime) -> None:\n"
+                         f"    {tgt}(x + k, label)\n    {tgt}(x, {r.choice(words)!r})\n\n")
+        elif k == "int":
+            parts.append(f"@guppy\ndef {name}(x: int, k: int @comptime) -> None:\n    result(\"i\", x + k)\n\n")
+        elif k == "float":
+            parts.append(f"@guppy\ndef {name}(x: int, k: float @comptime) -> None:\n    result(\"f\", k)\n\n")
+        elif k == "bool":
+            parts.append(f"@guppy\ndef {name}(x: int, k: bool @comptime) -> None:\n    if k:\n        result(\"t\", x)\n\n")
+        else:
+            parts.append(f"@guppy\ndef {name}(x: int, k: nat @comptime) -> None:\n    result(\"n\", x + int(k))\n\n")
+    if r.random() < 0.5:
+        tags.add("struct")
+        parts.append("@guppy.struct\nclass Rec:\n    a: int\n    b: int\n\n@guppy.struct\nclass Rec_:\n    a: int\n    b: int\n\n"
+                     "@guppy\ndef tot(p: Rec, q: Rec_) -> int:\n    return p.a + q.b\n\n")
+        calls.append("    x = tot(Rec(x, 1), Rec_(2, x))")
+    if r.random() < 0.5:
+        tags.add("const-generic")
+        parts.append("@guppy\ndef size(xs: array[int, n]) -> int:\n    return int(n)\n\n@guppy\ndef ident(y: T) -> T:\n    return y\n\n")
+        calls.append("    x = x + size(array(1, 2, 3)) + size(array(1, 2)) + ident(x) + int(ident(1.5))")
+    for _ in range(r.choice([3, 5, 8, 12])):
+        name, k = r.choice(names)
+        if k == "str":
+            calls.append(f"    {name}(x, {r.choice(words)!r})")
+        elif k == "str2":
+            calls.append(f"    {name}(x, {r.choice(words)!r}, {r.choice(words)!r})")
+        elif k == "fwd":
+            calls.append(f"    {name}(x, {r.choice(words)!r}, {r.choice([0, 1, -3, 2 ** 40])})")
+        elif k == "int":
+            calls.append(f"    {name}(x, {r.choice([0, 1, -1, 7, 2 ** 62, -2 ** 61])})")
+        elif k == "float":
+            calls.append(f"    {name}(x, {r.choice(['0.5', '-0.0', '1e300', '3.25', '2.0'])})")
+        elif k == "bool":
+            calls.append(f"    {name}(x, {r.choice(['True', 'False'])})")
+        else:
+            calls.append(f"    {name}(x, {r.choice([0, 1, 5, 64])})")
+    if r.random() < 0.4:
+        tags.add("panic")
+        calls.append(f"    if x > 99:\n        panic({r.choice(words) + ' failed'!r}, x)")
+    parts.append("@guppy\ndef main(x: int) -> int:\n" + "\n".join(calls) + "\n    return x\n")
+    return "".join(parts), "main", sorted(tags)
